@@ -9,7 +9,7 @@ import susrender
 import vlib
 
 PID = "C13"
-THEOREMS = ['C13_is_loading_iff_pending', 'C13_is_loading_chain', 'C13_report_depends_on_pending_set',
+THEOREMS = ['C13_is_loading_iff_pending', 'C13_global_loading_iff', 'C13_is_loading_chain', 'C13_report_depends_on_pending_set',
             'C13r_blocking_returns_when_finished', 'C13r_blocking_never', 'C13r_blocking_content', 'C13r_stream_once', 'C13r_stream_parent_first',
             'C13r_stream_script_never_fails', 'C13r_stream_live', 'C13r_stream_equals_blocking',
             'C13s_boundary_loading_iff_resource_loading', 'C13s_boundary_loading_iff_latest_outstanding']
